@@ -294,8 +294,11 @@ def read_model_initial_conditions(
     # field capacity, then reset value to account for possible changes in field
     # capacity caused by capillary rise effects
     if ParamStruct.water_table == 1:
-        if (typestr == "Prop") and (datapoints[-1] == "FC"):
-            InitCond.th = InitCond.th_fc_Adj
+        if typestr == "Prop":
+            # (only the compartments that were given their field capacity, and
+            # as values: th and th_fc_Adj stay separate arrays)
+            at_fc = np.isclose(InitCond.th, profile.th_fc.values)
+            InitCond.th = np.where(at_fc, InitCond.th_fc_Adj, InitCond.th)
 
     # If groundwater table is present in soil profile then set all water
     # contents below the water table to saturation
